@@ -4,6 +4,9 @@ import Replicon.Proofs.JointGhost
 import Replicon.Proofs.Sync
 import Replicon.Proofs.ClientSync
 import Replicon.Proofs.Session
+import Replicon.Proofs.KindsSession
+import Replicon.Proofs.ClientKinds
+import Replicon.Proofs.TwoWay
 /-
 C03 — Structural changes reach clients atomically and in server order.
 
@@ -18,21 +21,27 @@ sends a client carries a tick larger than that of every update message sent to t
 before in its session; with `C03_tick_monotone` (the client never applies an older tick) the
 ordered channel therefore makes the client apply structural changes in server order.
 
-Which entities, over ALL histories (`Proofs/Sync.lean`, `Proofs/ClientSync.lean`): after every
-replication run the server tracks for every authorized client exactly the replicated entities
-visible to it (`C03_history_entities`); the DESPAWNS and CHANGES sections of the run's update
-message are exactly the difference of the tracked sets (`C03_history_message_is_difference`); and
-the client model that holds the tracked set and applies that message holds the new tracked set
-(`C03_history_frame_both_sides`).
+The structure, over ALL histories and across both models (`Proofs/Sync.lean`, `ClientSync.lean`,
+`Session.lean`, `Kinds.lean`, `KindsSession.lean`, `ClientKinds.lean`; ≈ 6 000 lines):
+* after every replication run the server tracks for every authorized client exactly the
+  replicated entities visible to it (`C03_history_entities`), and the DESPAWNS and CHANGES sections
+  of the run's update message are exactly the difference of the tracked sets
+  (`C03_history_message_is_difference`);
+* the client model that holds the tracked set and applies that message holds the new tracked set
+  (`C03_history_frame_both_sides`); fed a whole session's update messages in order it holds exactly
+  the server's view (`C03_history_session`);
+* the DESPAWNS / REMOVALS / CHANGES records of the session, replayed for one entity, give exactly the
+  replicated component kinds the server entity carries (`C03_history_components`), and that is what
+  the client model has on its entity (`C03_history_structure`, which puts the three together:
+  entities, marker, components).
 
-What else is proved here are the per-section facts the property rests on.  The end-to-end statement
-— "the client's structure equals the server's view at the client's update tick" — is proved at
-the level of *which entities* for one frame on both sides (above); **not** proved as one theorem
-(`C03_structure_partial`) are its composition along the message sequence of a session and the
-component level (which components each entity has): they are evaluated as an oracle on the
-implementation after every client frame of every trace.  The missing step for components is the
-server invariant relating the removal buffer and per-component added ticks to the difference of
-two consecutive views.
+What else is proved here are the per-section facts the property rests on.  Still **not** one
+theorem (`C03_structure_partial`): histories with
+pre-spawn mappings (C16's per-message theorems), and the interleaving with mutate messages at the
+component level (a mutate message never changes which entities are held —
+`C01_history_same_entities_any_schedule` — but a stale one could re-insert a removed component if
+the client did not compare ticks; that comparison is `applyMutEnt`'s, checked in lock step).
+These parts are evaluated as an oracle on the implementation after every client frame.
 -/
 namespace Replicon.C03
 open Replicon Replicon.Srv Replicon.Cli
@@ -203,6 +212,93 @@ theorem C03_history_session (s0 : Server) (hw : s0.world = []) (hc0 : s0.clients
         marked (Joint.run { srv := s0 } (ops ++ [.frame ticked ms parts])).1.srv.world se ∧
         Vis.isVisible (Joint.run { srv := s0 } (ops ++ [.frame ticked ms parts])).1.srv.white (cell x.2 se) = true :=
   Joint.session_view s0 hw hc0 hb ops ticked ms parts hl hr hc
+
+/-- **Which components each entity has, over ALL histories** (`Proofs/Kinds.lean`,
+`Proofs/KindsSession.lean`; server side of the wire).  After any history of the joint server
+model — entity identifiers not reused, a stopped server sees a frame before it is started again,
+no pre-spawn mappings — that ends with a frame in which `send_replication` ran: for every
+authorized client and every entity the server tracks for it, replaying for that entity the
+DESPAWNS / REMOVALS / CHANGES records of the update messages sent to the client since it connected
+(`ghostKinds`: a despawn forgets the entity's kinds, a removal record removes the kinds it names, a
+change record adds the kinds it carries — the order in which the client applies the sections)
+gives exactly the replicated component kinds the server entity carries now.  The invariant
+behind it (`KindInv`, `CK`) is the one the header of this file used to call "the missing step":
+a kind the receiver has and the entity no longer carries has a removal event pending or
+buffered (Bevy's two-frame retention of removal events and `buffer_removals` running in every
+frame of a running server are what make this true — the seeded changes C01-c / C03-d break
+exactly this); a kind the entity carries and the receiver lacks was added after the last run
+(`added > last_run`, so `collect_changes` writes it as an insertion); a kind with a pending
+removal that the entity carries again was re-inserted after the last run. -/
+theorem C03_history_components (s0 : Server) (hw : s0.world = []) (hc0 : s0.clients = []) (hb : s0.removalBuf = [])
+    (ht : s0.lastRun < s0.now)
+    (ops : List Joint.Op) (ticked : Bool) (ms : Nat) (parts : Nat → List (List Nat))
+    (hl : Joint.Legal2 { srv := s0 } (ops ++ [.frame ticked ms parts]))
+    (hr : (Joint.run { srv := s0 } ops).1.srv.running = true)
+    (hc : (preRun (Joint.run { srv := s0 } ops).1.srv ticked ms).tickChanged = true) :
+    ∀ x ∈ (Joint.run { srv := s0 } (ops ++ [.frame ticked ms parts])).1.srv.clients, x.2.authorized = true →
+      ∀ e, e ∈ keys x.2 →
+      ∀ ent, (e, ent) ∈ (Joint.run { srv := s0 } (ops ++ [.frame ticked ms parts])).1.srv.world →
+        ∀ k, k ∈ ghostKinds ((Joint.runLog { srv := s0 } (fun _ => []) (ops ++ [.frame ticked ms parts])).2 x.1) e ↔
+          k ∈ presentKinds (Joint.run { srv := s0 } (ops ++ [.frame ticked ms parts])).1.srv ent :=
+  Joint.session_kinds s0 hw hc0 hb ht ops ticked ms parts hl hr hc
+
+/-- **The client's replicated structure equals the server's, over ALL histories, across both
+models** (`Proofs/Session.lean`, `Proofs/ClientKinds.lean`).  After any history of the joint server
+model — entity identifiers not reused, a stopped server sees a frame before it is started again,
+no pre-spawn mappings — that ends with a frame in which `send_replication` ran, for every
+authorized client, the client model started fresh and fed in order the update messages sent to
+that client since it connected:
+* is well-formed (every mapped entity exists, the map is injective), its `client_to_server` map is
+  exactly the inverse of `server_to_client` (`TwoWay`: a consistent two-way entity map), and no
+  section of any message failed on it;
+* holds, as live mapped entities carrying the replication marker, exactly the server entities
+  that carry the marker and are visible to the client; and
+* has on each of them exactly the replicated component kinds the server entity carries.
+This is the statement of C03 — which server entities the client holds, which replicated
+components each one has, the marker on each — at the tick of the last update message; a client
+that has applied a prefix of the messages is the client of the history cut after the frame that
+sent the last of them, so it holds the structure *at its update tick*.  Not covered by this
+theorem (they stay oracles of the trace checker and per-message theorems): pre-spawn mappings
+(C16), and component *values* (C02). -/
+theorem C03_history_structure (s0 : Server) (hw : s0.world = []) (hc0 : s0.clients = []) (hb : s0.removalBuf = [])
+    (ht : s0.lastRun < s0.now)
+    (ops : List Joint.Op) (ticked : Bool) (ms : Nat) (parts : Nat → List (List Nat))
+    (hl : Joint.Legal2 { srv := s0 } (ops ++ [.frame ticked ms parts]))
+    (hr : (Joint.run { srv := s0 } ops).1.srv.running = true)
+    (hc : (preRun (Joint.run { srv := s0 } ops).1.srv ticked ms).tickChanged = true) :
+    ∀ x ∈ (Joint.run { srv := s0 } (ops ++ [.frame ticked ms parts])).1.srv.clients, x.2.authorized = true →
+      WF (Joint.replay ((Joint.runLog { srv := s0 } (fun _ => []) (ops ++ [.frame ticked ms parts])).2 x.1)) ∧
+      TwoWay (Joint.replay ((Joint.runLog { srv := s0 } (fun _ => []) (ops ++ [.frame ticked ms parts])).2 x.1)) ∧
+      (∀ se, held (Joint.replay ((Joint.runLog { srv := s0 } (fun _ => []) (ops ++ [.frame ticked ms parts])).2 x.1)) se ↔
+        marked (Joint.run { srv := s0 } (ops ++ [.frame ticked ms parts])).1.srv.world se ∧
+        Vis.isVisible (Joint.run { srv := s0 } (ops ++ [.frame ticked ms parts])).1.srv.white (cell x.2 se) = true) ∧
+      (∀ se, held (Joint.replay ((Joint.runLog { srv := s0 } (fun _ => []) (ops ++ [.frame ticked ms parts])).2 x.1)) se →
+        ∀ ent, (se, ent) ∈ (Joint.run { srv := s0 } (ops ++ [.frame ticked ms parts])).1.srv.world →
+          ∀ k, k ∈ kindsOn (Joint.replay ((Joint.runLog { srv := s0 } (fun _ => []) (ops ++ [.frame ticked ms parts])).2 x.1)) se ↔
+            k ∈ presentKinds (Joint.run { srv := s0 } (ops ++ [.frame ticked ms parts])).1.srv ent) := by
+  intro x hx ha
+  obtain ⟨h1, h2⟩ := Joint.session_view s0 hw hc0 hb ops ticked ms parts hl hr hc x hx ha
+  obtain ⟨_, h3⟩ := Joint.session_entities s0 hw hc0 hb _ hl x hx
+  refine ⟨h1, Joint.session_twoWay s0 hw hc0 hb _ hl x hx, h2, ?_⟩
+  intro se hheld ent hwld k
+  exact Joint.session_components s0 hw hc0 hb ht ops ticked ms parts hl hr hc x hx ha se ((h3 se).mp hheld) ent hwld k
+
+/-- Non-vacuity of `C03_history_components`: an insertion, a removal, a removal followed by a
+re-insertion and a hide / show cycle; the hypotheses hold and the replayed kinds of entity 5 for
+client 0 are [1, 2] (kind 0 was removed, kind 2 removed and re-inserted, kind 1 inserted). -/
+example :
+    let s0 : Server := { rates := [(0, .every), (1, .every), (2, .every)] }
+    let ops : List Joint.Op :=
+      [.start, .connect 0 true, .spawn 5 true [(0, 7), (2, 1)], .frame true 10 (fun _ => []),
+       .insert 5 1 9, .remove 5 0, .frame false 10 (fun _ => []), .remove 5 2, .insert 5 2 4,
+       .frame true 10 (fun _ => []), .vis 0 5 false, .frame true 10 (fun _ => []), .vis 0 5 true]
+    Joint.Legal2 { srv := s0 } (ops ++ [.frame true 10 (fun _ => [])]) ∧
+    (Joint.run { srv := s0 } ops).1.srv.running = true ∧
+    (preRun (Joint.run { srv := s0 } ops).1.srv true 10).tickChanged = true ∧
+    s0.lastRun < s0.now ∧
+    ghostKinds ((Joint.runLog { srv := s0 } (fun _ => []) (ops ++ [.frame true 10 (fun _ => [])])).2 0) 5 = [1, 2] ∧
+    kindsOn (Joint.replay ((Joint.runLog { srv := s0 } (fun _ => []) (ops ++ [.frame true 10 (fun _ => [])])).2 0)) 5 = [2, 1] := by
+  refine ⟨by decide, by decide, by decide, by decide, by decide, by decide⟩
 
 /-- Non-vacuity of `C03_history_session`: a history with a reconnect, a hidden entity and a
 despawn satisfies the hypotheses; the replayed client of the second session holds entity 5 only
